@@ -99,7 +99,7 @@ def parse_fields(body, where):
     for p in parts:
         if not p:
             continue
-        m = re.fullmatch(r"pub\s+(\w+)\s*:\s*(.+)", p, re.S)
+        m = re.fullmatch(r"(?:pub\s+)?(\w+)\s*:\s*(.+)", p, re.S)
         if not m:
             die("%s: field declaration %r" % (where, p))
         fields.append((m.group(1), re.sub(r"\s+", " ", m.group(2).strip())))
@@ -110,33 +110,56 @@ def parse_fields(body, where):
 
 structs = {}        # name -> [(field, typeexpr)]
 derives = {}
-for m in re.finditer(r"((?:#\[[^\]]*\]\s*)*)pub struct (\w+)\s*\{", code):
+skipped = {}        # name -> reason
+macro_spans = []    # (start, end) of macro_rules! definitions and macro invocations: not scanned for plain structs
+for m in re.finditer(r"\n(macro_rules! \w+|multi_structs!|multi_strings!|bitflags!)\s*\{", code):
+    macro_spans.append((m.start(), matching_brace(code, m.end() - 1)))
+
+
+def in_macro(pos):
+    return any(a <= pos <= b for a, b in macro_spans)
+
+
+for m in re.finditer(r"((?:#\[[^\n]*\]\s*)*)pub struct (\w+)\s*\{", code):
+    if in_macro(m.start(2)):
+        continue
     name = m.group(2)
     end = matching_brace(code, m.end() - 1)
-    if name in WANT or name in CV:
-        if name in structs:
-            die("struct %s declared twice" % name)
+    if name in structs or name in skipped:
+        die("struct %s declared twice" % name)
+    if name in CV:
         structs[name] = parse_fields(code[m.end():end], name)
         derives[name] = m.group(1)
+    elif "Pread" in m.group(1) and "SizeWith" in m.group(1):
+        structs[name] = parse_fields(code[m.end():end], name)
+        derives[name] = m.group(1)
+    else:
+        skipped[name] = "no derive(Pread, SizeWith): hand-written or in-memory only"
 
 # multi_structs! { pub struct A {..} pub struct B {..} ... }  (each includes its predecessors' fields)
-mm = list(re.finditer(r"\nmulti_structs!\s*\{(?=\s*pub struct MINIDUMP_MISC_INFO\b)", code))
-if len(mm) != 1:
-    die("expected exactly one multi_structs! invocation for MINIDUMP_MISC_INFO, found %d" % len(mm))
-mend = matching_brace(code, mm[0].end() - 1)
-mbody = code[mm[0].end():mend]
-acc = []
-seen = []
-for m in re.finditer(r"pub struct (\w+)\s*\{", mbody):
-    e = matching_brace(mbody, m.end() - 1)
-    acc = acc + parse_fields(mbody[m.end():e], m.group(1))
-    structs[m.group(1)] = list(acc)
-    derives[m.group(1)] = "#[derive(Pread)]"
-    seen.append(m.group(1))
-if seen != MISC:
-    die("multi_structs! declares %s, expected %s" % (seen, MISC))
 if not re.search(r"\$\(#\[\$attr\]\)\*\s*#\[derive\(Debug, Clone, Pread, Pwrite, SizeWith\)\]\s*pub struct \$name \{\s*\$\( pub \$field: \$t, \)\*\s*\}", code):
     die("multi_structs! macro body changed")
+multi_seen = []
+for mm in re.finditer(r"\nmulti_structs!\s*\{", code):
+    mend = matching_brace(code, mm.end() - 1)
+    mbody = code[mm.end():mend]
+    acc = []
+    for m in re.finditer(r"pub struct (\w+)\s*\{", mbody):
+        e = matching_brace(mbody, m.end() - 1)
+        inner = mbody[m.end():e]
+        acc = acc + (parse_fields(inner, m.group(1)) if inner.strip() else [])
+        if not acc:
+            die("multi_structs!: %s has no fields" % m.group(1))
+        structs[m.group(1)] = list(acc)
+        derives[m.group(1)] = "#[derive(Pread, SizeWith)]"
+        multi_seen.append(m.group(1))
+for n in MISC:
+    if n not in multi_seen:
+        die("multi_structs! does not declare %s" % n)
+for mm in re.finditer(r"\nmulti_strings!\s*\{", code):
+    mend = matching_brace(code, mm.end() - 1)
+    for m in re.finditer(r"pub struct (\w+)\s*\{", code[mm.end():mend]):
+        skipped[m.group(1)] = "multi_strings!: in-memory struct of Strings, not a wire layout"
 
 for n in WANT + list(CV) + MISC:
     if n not in structs:
@@ -161,6 +184,14 @@ for n, tail in CV.items():
     structs[n] = fs[:-1]
 
 
+emitted = []
+lines = []
+
+
+class Unsupported(Exception):
+    pass
+
+
 def ty_expr(t, where):
     t = t.strip()
     if t in aliases:
@@ -170,14 +201,10 @@ def ty_expr(t, where):
     m = re.fullmatch(r"\[\s*(.+?)\s*;\s*(\d+)(?:usize)?\s*\]", t)
     if m:
         return "(LArr %d %s)" % (int(m.group(2)), ty_expr(m.group(1), where))
-    if t in structs:
+    if t in structs and t not in CV:
         need(t)
         return "L_" + t
-    die("%s: field type %r" % (where, t))
-
-
-emitted = []
-lines = []
+    raise Unsupported("%s: field type %r" % (where, t))
 
 
 def need(n):
@@ -195,8 +222,19 @@ def need(n):
     lines.append("Definition N_%s : list string := [%s]." % (n, "; ".join('"%s"' % f for f, _ in fs)))
 
 
-for n in WANT + list(CV) + MISC:
-    need(n)
+required = set(WANT + list(CV) + MISC)
+for n in list(structs):
+    try:
+        need(n)
+    except Unsupported as e:
+        if n in required:
+            die(str(e))
+        skipped[n] = "unsupported field: " + str(e)
+for n in required:
+    if n not in emitted:
+        die("required struct %s was not emitted" % n)
+lines.append("Definition ALL_LAYOUTS : list (string * layout) := [%s]." % "; ".join('("%s", L_%s)' % (n, n) for n in emitted))
+lines.append("(* structs of format.rs without a layout here: %s *)" % "; ".join("%s (%s)" % (k, v.replace("*)", "* )")) for k, v in sorted(skipped.items())))
 
 
 def intlit(s):
@@ -242,7 +280,10 @@ lines.append("Definition VS_FFI_SIGNATURE : Z := %d." % const("VS_FFI_SIGNATURE"
 lines.append("Definition VS_FFI_STRUCVERSION : Z := %d." % const("VS_FFI_STRUCVERSION"))
 lines += enum("MINIDUMP_STREAM_TYPE", ["UnusedStream", "ThreadListStream", "ModuleListStream", "MemoryListStream", "ExceptionStream",
                                       "SystemInfoStream", "Memory64ListStream", "UnloadedModuleListStream", "MiscInfoStream",
-                                      "MemoryInfoListStream", "ThreadNamesStream"], "ST_")
+                                      "MemoryInfoListStream", "ThreadNamesStream", "HandleDataStream", "ThreadInfoListStream",
+                                      "BreakpadInfoStream", "AssertionInfoStream", "LinuxCpuInfo", "LinuxProcStatus", "LinuxLsbRelease",
+                                      "LinuxCmdLine", "LinuxEnviron", "LinuxAuxv", "LinuxMaps", "LinuxDsoDebug", "CrashpadInfoStream",
+                                      "MozMacosCrashInfoStream", "MozMacosBootargsStream", "MozLinuxLimits", "MozSoftErrors"], "ST_")
 m = re.search(r"pub struct ContextFlagsCpu: u32 \{(.*?)\n    \}", code, re.S)
 if not m:
     die("ContextFlagsCpu")
@@ -258,7 +299,8 @@ for item in m.group(1).split(";"):
 allbits = 0
 for v in cpu_flags.values():
     allbits |= v
-for need_flag in ("CONTEXT_X86", "CONTEXT_AMD64", "CONTEXT_ARM", "CONTEXT_ARM64"):
+for need_flag in ("CONTEXT_X86", "CONTEXT_AMD64", "CONTEXT_ARM", "CONTEXT_ARM64", "CONTEXT_ARM64_OLD", "CONTEXT_MIPS", "CONTEXT_PPC",
+                  "CONTEXT_PPC64", "CONTEXT_SPARC"):
     if need_flag not in cpu_flags:
         die("ContextFlagsCpu::%s" % need_flag)
     lines.append("Definition CF_%s : Z := %d." % (need_flag, cpu_flags[need_flag]))
@@ -267,7 +309,9 @@ lines.append("Definition CONTEXT_CPU_MASK : Z := %d." % const("CONTEXT_CPU_MASK"
 if not re.search(r"pub fn from_flags\(flags: u32\) -> ContextFlagsCpu \{\s*ContextFlagsCpu::from_bits_truncate\(flags & CONTEXT_CPU_MASK\)\s*\}", code):
     die("ContextFlagsCpu::from_flags changed")
 lines += enum("ProcessorArchitecture", ["PROCESSOR_ARCHITECTURE_INTEL", "PROCESSOR_ARCHITECTURE_ARM", "PROCESSOR_ARCHITECTURE_AMD64",
-                                        "PROCESSOR_ARCHITECTURE_IA32_ON_WIN64", "PROCESSOR_ARCHITECTURE_ARM64"], "")
+                                        "PROCESSOR_ARCHITECTURE_IA32_ON_WIN64", "PROCESSOR_ARCHITECTURE_ARM64", "PROCESSOR_ARCHITECTURE_MIPS",
+                                        "PROCESSOR_ARCHITECTURE_PPC", "PROCESSOR_ARCHITECTURE_SPARC", "PROCESSOR_ARCHITECTURE_PPC64",
+                                        "PROCESSOR_ARCHITECTURE_ARM64_OLD", "PROCESSOR_ARCHITECTURE_MIPS64"], "")
 lines += enum("CvSignature", ["Pdb20", "Pdb70", "Elf"], "CV_SIG_")
 lines += enum("PlatformId", ["VER_PLATFORM_WIN32_WINDOWS", "VER_PLATFORM_WIN32_NT", "MacOs", "Ios", "Linux", "Solaris", "Android", "Ps3", "NaCl"], "PLATFORM_")
 
